@@ -346,6 +346,18 @@ bool splinetable<Alloc>::read_fits_core(fitsfile* fits, const std::string& fileP
 	//Fix it while copying to the actual array.
 	std::copy(naxes_temp.rbegin(),naxes_temp.rend(),naxes);
 	
+	// The number of coefficients must be representable, and so must the size
+	// of the array which is about to hold them: a header can declare more
+	// (e.g. 16 axes of 16) and the product would silently wrap around
+	{
+		uint64_t total=1;
+		for(size_t i=0; i<ndim; i++){
+			if(naxes[i]!=0 && total>(std::numeric_limits<uint64_t>::max()/sizeof(float))/naxes[i])
+				throw std::runtime_error("Coefficient array declared in "+filePath+" is too large");
+			total*=naxes[i];
+		}
+	}
+	
 	// Compute the total array size and the strides into each dimension
 	strides = allocate<uint64_t>(ndim);
 	strides[0]=1;
